@@ -315,22 +315,18 @@ Proof. split; [exact main_install_in|]. vm_compute. repeat split; reflexivity. Q
     length [len] of the vector handed to appendRFKicks and every target [t] (the sixteen growing datasets and /RFKicks/data):
     one call adds exactly one record to each dataset of the overload's family - for append(ps,t,at) with at <> PhaseSpace the
     family contains the time axis /Info/AxisValues_t - and none to any other; appendRFKicks adds [len] rows to /RFKicks/data.
-    And one `_appendData(ds,data,size)` extends its dataset by exactly [size] records (Gen_H5Index).  So no sequence of calls
-    can leave the datasets of one family, or a family and the time axis, with different numbers of records.
+    The `_appendData` template itself is a straight line that extends the dataset once and writes once ([appenddata_ok]; that the
+    new extent is the old one plus [size] is C10's statement about Gen_H5Index).  So no sequence of calls can leave the datasets
+    of one family, or a family and the time axis, with different numbers of records.
     (Seed F4-J: `if (_timeAxisPS.dims[0] > 0 && t == _lastTimePS) return;` inside the phase-space part of append(ps,t,at):
     the body gets an opaque condition guarding a `return`, under which AppendType::All writes nothing at all - [appends_ok] is
     false.) *)
-From Inovesa Require Import Base.FieldKit Model.Records Model.H5Slab Model.H5Append Gen.Gen_H5Append Gen.Gen_H5Index.
+From Inovesa Require Import Base.FieldKit Model.Records Model.H5Append Gen.Gen_H5Append.
 From Inovesa Require Import Proofs.H5AppendP Proofs.H5AppendMainP Proofs.DriverAppendP.
 
 Theorem C14_append_records_all_or_nothing :
   appends_ok gen_body_ps gen_body_ef gen_body_wake gen_body_tracks gen_body_padded gen_body_rfkicks = true /\
-  (forall (dims : list Z) (size : Z),
-     gen_ad_extent dims size = (hd 0 dims + size) :: tl dims /\
-     gen_ad_dims_after dims size = (hd 0 dims + size) :: tl dims /\
-     hd 0 (gen_ad_start dims size) = hd 0 dims /\
-     hd 0 (gen_ad_count dims size) = size /\
-     gen_ad_order_ok = true) /\
+  appenddata_ok gen_appenddata_shape = true /\
   (forall (h : Z -> bool) (len : Z) (t : atarget),
      (forall a : atype, added len t (fst (arun a nopar h gen_body_ps)) = expected (fam_ps a) 0 len t) /\
      (forall fs : bool, added len t (fst (arun AtAll (fun _ => fs) h gen_body_ef)) = expected (fam_ef fs) 0 len t) /\
@@ -343,7 +339,7 @@ Theorem C14_append_records_all_or_nothing :
      fam_ps a = (match a with AtAll | AtPhaseSpace => [DPSAxis; DPSData] | AtDefaults => [] end) ++
                 (match a with AtPhaseSpace => [] | _ => defaults_group end)).
 Proof.
-  exact (conj main_appends_checked (conj append_data_grows_by_size
+  exact (conj main_appends_checked (conj main_appenddata_checked
         (conj (appends_ok_sound _ _ _ _ _ _ main_appends_checked) (conj time_axis_in_family fam_ps_spelled)))).
 Qed.
 Print Assumptions C14_append_records_all_or_nothing.
